@@ -36,12 +36,13 @@ LEVEL = "model_checking"
 RULE = ("explicit-state BFS to closure over the real directory tree: one case = one (canonical state, event) pair, "
         "executed once by restoring the state's tree and calling the real function; states are de-duplicated on "
         "(directory presence, kind/content-class of every entry, relation of the stored identifier to the last "
-        "returned one); units split the state space along components no event can leave (which configuration "
+        "returned one, whether the last returned one is the subscription identity); units split the state space along components no event can leave (which configuration "
         "directories exist, whether machine-id is a symlink) so the per-unit state counts add up to the number of "
         "distinct states (states reached outside a unit's component are counted in counters.states_outside_unit_component, "
         "0 on the unchanged tree); a case is non-trivial when the event changed the tree or returned an identifier")
 ASSUMPTIONS = [
-    "identifier VALUES are abstracted to (spelling class, equal to the last returned id or not): the code under test "
+    "identifier VALUES are abstracted to (spelling class, equal to the last returned id or not, last returned id is the "
+    "subscription identity or not): the code under test "
     "never compares or branches on an identifier's value beyond 'parses as a UUID' (argument in canon())",
     "marker / symlink-target file CONTENT is abstracted to empty / non-empty: the code never reads these files",
     "uuid4 is a counter patched at insights.client.utilities.uuid; the subscription identity is an enumerated "
@@ -56,10 +57,10 @@ UA = "11111111-2222-4333-8444-555555555555"       # pre-existing identifier (v4)
 UB = "bbbbbbbb-bbbb-4bbb-8bbb-bbbbbbbbbbbb"       # subscription identity answer (v4)
 UNV4 = "11111111-2222-1333-c444-555555555555"     # parses as a UUID, not version 4
 CANON_RE = re.compile(r"^[0-9a-f]{8}-[0-9a-f]{4}-[0-9a-f]{4}-[0-9a-f]{4}-[0-9a-f]{12}$")
-# what the oracle calls an existing VALID identifier file: hyphenated or legacy un-hyphenated hex, optional
-# surrounding white space (weaker reading: nothing is demanded for empty / unparsable files, which a read
-# may legitimately replace or reject)
-VALID_RE = re.compile(r"^\s*(?:[0-9a-fA-F]{32}|[0-9a-fA-F]{8}-[0-9a-fA-F]{4}-[0-9a-fA-F]{4}-[0-9a-fA-F]{4}-[0-9a-fA-F]{12})\s*$")
+# what the oracle calls an existing VALID identifier file: a hyphenated UUID, optional surrounding white space.
+# Weaker reading of "an existing identifier file is never rewritten by a read": nothing is demanded for empty,
+# unparsable or legacy un-hyphenated files, which a read may legitimately replace, reject or migrate.
+VALID_RE = re.compile(r"^\s*[0-9a-fA-F]{8}-[0-9a-fA-F]{4}-[0-9a-fA-F]{4}-[0-9a-fA-F]{4}-[0-9a-fA-F]{12}\s*$")
 OLD_NS = 1000000000 * 10 ** 9                      # 2001-09-09: every file is aged to this before an event
 
 MID = "etc1/machine-id"
@@ -105,6 +106,7 @@ BOUNDS = {
                  "events": EVENTS, "depth": "closure (unbounded)"},
 }
 CAP_S = {"quick": 120, "thorough": 1200}
+MAX_STATES = 200000        # guard against a tree whose state space does not close (a capped unit reports exhaustive: false)
 
 
 # ---- the seam ---------------------------------------------------------------------------------
@@ -555,8 +557,14 @@ def run_unit(unit, tier):
 
         outside = 0
         max_depth = 0
-        reported = set()
+        succ = collections.defaultdict(set)       # the explored graph, for the depth-from-pristine statistic
+        res.stat("events_that_raised", 0)
+        res.stat("reads_that_exit_on_unparsable_file", 0)
         while frontier:
+            if len(nodes) > MAX_STATES:
+                res.exhaustive = False
+                res.notes.append("state cap %d reached in unit %r: not closed" % (MAX_STATES, unit))
+                break
             i = frontier.popleft()
             ents, last, ctr, _, _, depth, _ = nodes[i]
             max_depth = max(max_depth, depth)
@@ -574,6 +582,8 @@ def run_unit(unit, tier):
                 elif okind == "raised":
                     okind = "raised:" + obs[1]
                     res.stat("events_that_raised")
+                elif okind == "exit":
+                    res.stat("reads_that_exit_on_unparsable_file")
                 ag = aged(after)
                 touched = sorted(set(os.path.basename(r) for r in set(ag) | set(ents) if ag.get(r) != ents.get(r)))
                 res.case(nontrivial=(changed or obs[0] == "id"),
@@ -598,10 +608,29 @@ def run_unit(unit, tier):
                     frontier.append(len(nodes) - 1)
                     if component(dirs, after) != comp:
                         outside += 1
+                succ[i].add(seen[k])
+        closed = not frontier
         res.states = len(nodes)
         res.maxi("max_depth", max_depth)
         res.stat("states_outside_unit_component", outside)
-        res.stat("closed_units", 1)
+        res.stat("closed_units", 1 if closed else 0)
+
+        # how long a history has to be when the directories start out empty (graph search on the explored
+        # transition graph, nothing is executed): shows that the closure contains real multi-step histories
+        # even when every layout is also an initial state
+        prist = [j for j, n in enumerate(nodes) if n[6] is not None and n[6]["mid"] == "absent"
+                 and set(n[6]["reg"] + n[6]["unreg"]) == {"absent"}]
+        if prist:
+            dist = dict((j, 0) for j in prist)
+            dq = collections.deque(prist)
+            while dq:
+                a = dq.popleft()
+                for b in succ.get(a, ()):
+                    if b not in dist:
+                        dist[b] = dist[a] + 1
+                        dq.append(b)
+            res.stat("states_reachable_from_empty_directories", len(dist))
+            res.maxi("max_depth_from_empty_directories", max(dist.values()))
 
         # every state's shortest history is executed once more end-to-end on a fresh directory (no snapshots):
         # it must arrive in the same canonical state. This validates snapshot/restore and counts complete traces.
@@ -612,7 +641,7 @@ def run_unit(unit, tier):
             if seen.get(k) != i:
                 raise RuntimeError("C17 harness: history %r / %r does not re-reach its state" % (init, tr))
         res.samples.append({"unit": unit, "states": len(nodes), "transitions": res.transitions,
-                            "max_depth": max_depth, "closed": True})
+                            "max_depth": max_depth, "closed": closed})
     finally:
         shutil.rmtree(root, ignore_errors=True)
     return res
